@@ -351,13 +351,13 @@ func newBrPeer(id types.PeerID) *brPeer {
 	return &brPeer{id: id, role: types.PeerRole_Watcher, receivers: map[p2pcommon.MsgID]p2pcommon.ResponseReceiver{}}
 }
 
-func (p *brPeer) ID() types.PeerID               { return p.id }
-func (p *brPeer) Name() string                   { return "verif-peer" }
-func (p *brPeer) AcceptedRole() types.PeerRole   { return p.role }
+func (p *brPeer) ID() types.PeerID             { return p.id }
+func (p *brPeer) Name() string                 { return "verif-peer" }
+func (p *brPeer) AcceptedRole() types.PeerRole { return p.role }
 func (p *brPeer) RemoteInfo() p2pcommon.RemoteInfo {
 	return p2pcommon.RemoteInfo{Meta: p2pcommon.PeerMeta{ID: p.id}, Zone: p2pcommon.InternalZone}
 }
-func (p *brPeer) UpdateLastNotice(blkHash types.BlockID, blkNumber types.BlockNo)      {}
+func (p *brPeer) UpdateLastNotice(blkHash types.BlockID, blkNumber types.BlockNo)    {}
 func (p *brPeer) UpdateBlkCache(blkHash types.BlockID, blkNumber types.BlockNo) bool { return false }
 func (p *brPeer) SendMessage(msg p2pcommon.MsgOrder)                                 {}
 func (p *brPeer) MF() p2pcommon.MoFactory                                            { return brMF{peer: p} }
